@@ -436,6 +436,7 @@ func run(tier core.Tier) *core.Report {
 		}()
 	}
 	complete := true
+	var sampleToks [][]string
 	// the producer builds every signature once (memoised), so workers only read
 	for n := 1; n <= maxN && complete; n++ {
 		max := n + 1
@@ -452,6 +453,9 @@ func run(tier core.Tier) *core.Report {
 				return
 			}
 			sent++
+			if n == 4 && (len(toks) == 2 && toks[0] == "V2" && toks[1] == "V3" || sent == 700 || sent == 4000) {
+				sampleToks = append(sampleToks, toks)
+			}
 			ch <- job{n, toks, mustEntries(toks)}
 		})
 		perN[fmt.Sprintf("n=%d(size<=%d)", n, max)] = total
@@ -511,8 +515,9 @@ func run(tier core.Tier) *core.Report {
 	rep.Set("vote_cases", voteEvals)
 	rep.Set("vote_accepted", voteAcc)
 
-	// --- tdpos / xpoa CheckMinerMatch with BFT enabled, n <= 4 ----------------
+	// --- tdpos / xpoa CheckMinerMatch with BFT enabled, small n ---------------
 	bcsEvals, bcsAcc, bcsFullRefused := 0, 0, 0
+	var bcsSamples []interface{}
 	for _, name := range []string{"tdpos", "xpoa"} {
 		for n := 1; n <= maxNBcs; n++ {
 			if rep.Expired() {
@@ -531,6 +536,7 @@ func run(tier core.Tier) *core.Report {
 				}
 				bcsFullRefused++
 			}
+			idx := 0
 			forEachCase(n, n+1, func(toks []string) {
 				es := mustEntries(toks)
 				acc, err := drv.check(es)
@@ -539,6 +545,9 @@ func run(tier core.Tier) *core.Report {
 				}
 				t := tallyOf(n, collector, es)
 				bcsEvals++
+				if idx++; n == 4 && idx == 1500 {
+					bcsSamples = append(bcsSamples, map[string]interface{}{"case": Case{Seam: name + ".CheckMinerMatch", N: n, Collector: collector, Entries: toks}, "accepted": acc, "distinct_valid_non_collector_members": t.Distinct, "needed": t.Threshold})
+				}
 				if acc {
 					bcsAcc++
 					if t.Distinct < t.Threshold {
@@ -578,10 +587,18 @@ func run(tier core.Tier) *core.Report {
 	rep.Set("bounds", fmt.Sprintf("n=1..%d, list size <= min(n+1,%d); CalVotesThreshold 0<=input<=n<=10; CheckVote n=1..%d; tdpos/xpoa n=1..%d size<=n+1", maxN, capSize, maxN, maxNBcs))
 	rep.Set("accepted_total", cnt.accepted+voteAcc+bcsAcc)
 	rep.Set("exhaustive", complete)
-	rep.Sample(Case{Seam: "CheckProposal", N: 4, Collector: collector, Entries: []string{"V2", "V3"}})
-	rep.Sample(Case{Seam: "CheckProposal", N: 4, Collector: collector, Entries: []string{"V2", "V2#1", "X", "V4:key=V3"}})
-	rep.Sample(Case{Seam: "CheckVote", N: 3, Collector: collector, Entries: []string{"V3:key=X", "V3"}})
-	rep.Sample(Case{Seam: "tdpos.CheckMinerMatch", N: 4, Collector: collector, Entries: []string{"V2", "V3", "V4:otherid"}})
+	if len(bcsSamples) > 0 {
+		rep.Sample(bcsSamples[0])
+	}
+	for _, toks := range sampleToks {
+		acc, t := evalProposal(r0, 4, mustEntries(toks))
+		rep.Sample(map[string]interface{}{"case": Case{Seam: "CheckProposal", N: 4, Collector: collector, Entries: toks}, "accepted": acc, "distinct_valid_non_collector_members": t.Distinct, "needed": t.Threshold})
+	}
+	{
+		toks := []string{"V3:key=X", "V3"}
+		acc, t := evalVote(rv, 3, mustEntries(toks))
+		rep.Sample(map[string]interface{}{"case": Case{Seam: "CheckVote", N: 3, Collector: collector, Entries: toks}, "accepted": acc, "first_is_valid_member_signature": t.FirstIsMember})
+	}
 	rep.Assume("the collector of a certificate is the signer of the proposal (SMR path) / the proposer of the block (tdpos, xpoa) that carries it: V1")
 	rep.Assume("entries of one kind are interchangeable: invalid entries are attributed to the members Vn, Vn-1, ... in turn; lists are tried in canonical and reversed order, not in every permutation")
 	rep.Assume("tdpos / xpoa run over a stub LedgerRely, network and kernel registry (two stored blocks, initial validator set), block at height 2 wrapped by the real state.BlockAgent")
